@@ -744,7 +744,7 @@ LAW(T_hyper2x2, RC, 12, 60, 8, "margins not all equal") {
   Gof g = gof(cnt, pr); CHECK_GOF(c, g, "top-left cell of rcont2 on rows " << showZ(rows) << " cols " << showZ(cols) << " vs hypergeometric law");
 }
 
-LAW(T_test, RC, 12000, 240000, 40, "a zero margin (must raise), or the permutation variant") {
+LAW(T_test, RC, 12000, 240000, 60, "a zero margin (must raise), or the permutation variant") {
   uint32_t seed = genSeed(c); size_t nr = static_cast<size_t>(c.irange(2, 5)), nc = static_cast<size_t>(c.irange(2, 5)); unsigned nperm = c.flag() ? 50 : 0;
   vector<vector<size_t>> tab(nr, vector<size_t>(nc)); vector<size_t> rows(nr, 0), cols(nc, 0); size_t cap = 200 / (nr * nc);
   bool sparse = c.oneIn(3);
